@@ -9,7 +9,7 @@
    [ForallOrdPairs ev_ok trace] is the property for one run; every theorem
    quantifies over ALL runs (all interleavings, counts, reported keys). *)
 From Coq Require Import List NArith Bool Sorted.
-From SW Require Import model.Seq proof.SeqProofs proof.SeqSnow.
+From SW Require Import model.Seq model.SeqGrow proof.SeqProofs proof.SeqSnow proof.SeqGrow.
 Import ListNotations.
 Local Open Scope N_scope.
 
@@ -244,7 +244,57 @@ Theorem c13_volume_ids_hb_between :
 Proof. exact vol_hb_between. Qed.
 Print Assumptions c13_volume_ids_hb_between.
 
+(* ---------------- concurrent grow requests: the lock is part of the machine ---------------- *)
+(* model/SeqGrow.v: any number of GrowByCountAndType requests (any counts, raft
+   errors, AllocateVolume failures) and heartbeats, interleaved in ANY order at the
+   granularity start / accessLock.Lock() / NextVolumeId's read+proposal / raft
+   apply.  [gstep true] is the locking of the code (the lock is held from the start
+   of GrowByCountAndType to its return; a GLock step of another request is a no-op
+   meanwhile): no hypothesis about the schedule other than the 32-bit id space.
+   The trace property: an id handed out is above every id handed out before and
+   not below any earlier proposal; a proposal is above every id handed out or
+   reported by a heartbeat before it. *)
+Theorem c13_grow_oracle_is_property : forall tr, gtrace_okb tr = true <-> ForallOrdPairs gev_ok tr.
+Proof. exact gtrace_okb_spec. Qed.
+Print Assumptions c13_grow_oracle_is_property.
+
+Theorem c13_grow_trace : forall nact m0 sched, gfits true (ginit nact m0) sched = true ->
+  ForallOrdPairs gev_ok (somes (snd (grow_run true (ginit nact m0) sched))).
+Proof. exact grow_trace_ok. Qed.
+Print Assumptions c13_grow_trace.
+
+Theorem c13_grow_ids_increasing : forall nact m0 sched, gfits true (ginit nact m0) sched = true ->
+  StronglySorted N.lt (grants (snd (grow_run true (ginit nact m0) sched))).
+Proof. exact grow_sorted. Qed.
+Print Assumptions c13_grow_ids_increasing.
+
+Theorem c13_grow_ids_unique : forall nact m0 sched, gfits true (ginit nact m0) sched = true ->
+  NoDup (grants (snd (grow_run true (ginit nact m0) sched))).
+Proof. exact grow_unique. Qed.
+Print Assumptions c13_grow_ids_unique.
+
+(* the full statement for a lock that does not cover NextVolumeId ([gstep false],
+   e.g. accessLock narrowed to findEmptySlotsForOneVolume) is false: two requests
+   of two volumes on a topology with volumes 1-3 hand out 4, 4, 5, 5 *)
+Theorem c13_grow_needs_lock_refuted :
+  exists sched, gfits false (ginit 2 3) sched = true /\
+                grants (snd (grow_run false (ginit 2 3) sched)) = [4; 4; 5; 5] /\
+                ~ NoDup (grants (snd (grow_run false (ginit 2 3) sched))).
+Proof. exact grow_unlocked_refuted. Qed.
+Print Assumptions c13_grow_needs_lock_refuted.
+
 (* ---------------- non-vacuity ---------------- *)
+(* the same steps on the locked machine (request 1 stays blocked), then request 1
+   with a heartbeat between its proposal and the apply and a failing AllocateVolume *)
+Example c13_grow_example :
+  let sched := grow_wit ++ [GLock 1; GRead 1; GHb 9; GApply 1 GOk; GRead 1; GApply 1 GAllocErr] in
+  gfits true (ginit 2 3) sched = true /\
+  somes (snd (grow_run true (ginit 2 3) sched)) =
+    [EProp 0 4; EGrant 0 4; EProp 0 5; EGrant 0 5; EProp 1 6; ESeen 9; EGrant 1 6; EProp 1 10; EGrant 1 10] /\
+  gallocs 1 sched (snd (grow_run true (ginit 2 3) sched)) = [(0%nat, 4); (0%nat, 5); (1%nat, 6); (1%nat, 10)].
+Proof. exact grow_example. Qed.
+Print Assumptions c13_grow_example.
+
 Example c13_memory_example :
   let ops := [MNext 3; MSetMax 10; MNext 2; MSetMax 5; MNext 1] in
   mem_fits mem_init ops = true /\
